@@ -36,6 +36,7 @@ type (
 		Forall bool
 		Vars   []SBinder
 		Body   SExpr
+		Wits   []SExpr // optional witnesses of an existential's binders (nil entries: none)
 	}
 	SCond   struct{ C, A, B SExpr }
 	SDeref  struct{ X SExpr }
@@ -64,7 +65,7 @@ type stok struct {
 func slex(src string) ([]stok, error) {
 	var out []stok
 	i := 0
-	ops := []string{"<==>", "==>", "::", "==", "!=", "<=", ">=", "&&", "||"}
+	ops := []string{"<==>", "==>", "::", ":=", "==", "!=", "<=", ">=", "&&", "||"}
 	for i < len(src) {
 		ch := src[i]
 		switch {
@@ -334,6 +335,7 @@ func (ps *sparser) primary() SExpr {
 func (ps *sparser) quant(forall bool) SExpr {
 	ps.expect("(")
 	var vars []SBinder
+	var wits []SExpr
 	for {
 		t := ps.next()
 		if t.kind != "id" {
@@ -347,7 +349,7 @@ func (ps *sparser) quant(forall bool) SExpr {
 				ps.fail("unterminated binder")
 			}
 			if k.kind == "op" {
-				if depth == 0 && (k.text == "," || k.text == "::") {
+				if depth == 0 && (k.text == "," || k.text == "::" || k.text == ":=") {
 					break
 				}
 				if k.text == "[" || k.text == "(" {
@@ -361,6 +363,12 @@ func (ps *sparser) quant(forall bool) SExpr {
 		}
 		typ := strings.TrimSpace(ps.src[start:ps.peek().pos])
 		vars = append(vars, SBinder{t.text, typ})
+		// `x T := e`: a witness, used when an existential is a proof goal (the goal becomes body[x := e])
+		var w SExpr
+		if ps.accept(":=") {
+			w = ps.add()
+		}
+		wits = append(wits, w)
 		if ps.accept(",") {
 			continue
 		}
@@ -369,5 +377,5 @@ func (ps *sparser) quant(forall bool) SExpr {
 	}
 	body := ps.expr()
 	ps.expect(")")
-	return SQuant{forall, vars, body}
+	return SQuant{forall, vars, body, wits}
 }
